@@ -308,8 +308,8 @@ theorem pushes_outside_transactions :
       ("handlers/base.py", "StabilizeHandler.start_next", 2),
       ("handlers/base.py", "StabilizeHandler.start_next", 3),
       ("handlers/complete_workflow.py", "CompleteWorkflowHandler._determine_final_status", 0),
-      ("handlers/continue_parent_stage.py", "ContinueParentStageHandler._handle_before_phase", 2),
-      ("handlers/continue_parent_stage.py", "ContinueParentStageHandler._handle_after_phase", 2),
+      ("handlers/continue_parent_stage.py", "ContinueParentStageHandler._handle_before_phase", 0),
+      ("handlers/continue_parent_stage.py", "ContinueParentStageHandler._handle_after_phase", 0),
       ("handlers/start_stage/handler.py", "StartStageHandler.handle.on_stage", 0),
       ("handlers/start_stage/handler.py", "StartStageHandler.handle.on_stage", 2),
       ("handlers/start_stage/handler.py", "StartStageHandler._start_if_ready", 2),
